@@ -327,6 +327,7 @@ def hashseed_batch(tier, seed_value):
     try:
         from . import c03_net
         cases += [["net", c] for c in collect_cases(c03_net.scenario_strategy(tier), n // 3, seed_value + 1)]
+        cases += [["net", c] for c in collect_cases(c03_net.strclass_strategy(tier), n // 3, seed_value + 2)]
     except ImportError:
         pass
     tmp = os.path.join(common.VERIF, ".shards", f"c03-batch-{os.getpid()}.json")
